@@ -286,6 +286,22 @@ def harness_for(item):
             env.holds("CLs=CLsb/CLb", (~(N(CLb) > 0)) | (N(CLs) * N(CLb) == N(CLsb)), key="toys:pvalues")
         else:
             env.holds("CLs=CLsb/CLb", (not float(CLb) > 0) or abs(float(CLs) * float(CLb) - float(CLsb)) < 1e-12, key="toys:pvalues")
+        # the same calculator asked again, for another tested value: both toy sets are generated and evaluated afresh
+        mu2 = env.sym("mu_test2", nonneg=True)
+        stubs2 = FitStubs(env, prefix="again")
+        with stubs2.install():
+            sb2, b2 = calc.distributions(mu2)
+        c2 = stubs2.calls
+        env.holds("second-call:n-fits", len(c2) == 2 + 2 * 2 * ntoys, key="toys:second-call")
+        if len(c2) == 2 + 2 * 2 * ntoys:
+            env.eq("second-call:signal-hypothesis", c2[0]["poi_val"], mu2, key="toys:second-call")
+            tested2 = N(0) if ts == "q0" else N(mu2)
+            for t in range(ntoys):
+                for which, base, dist in (("signal", 2, sb2), ("background", 2 + 2 * ntoys, b2)):
+                    k = base + 2 * t
+                    env.eq(f"second-call:{which}-toy{t}:tested-value", c2[k]["poi_val"], tested2, key="toys:second-call")
+                    env.eq(f"second-call:{which}-toy{t}:statistic", dist.samples[t],
+                           oracle_stat(env, name, tested2, c2[k + 1]["pars"][pi], c2[k]["v"], c2[k + 1]["v"]), key="toys:second-call")
 
     def draws(env):
         """the numpy backend's own draw routines (_BasicNormal/_BasicPoisson.sample through normal_dist/poisson_dist)
